@@ -38,6 +38,7 @@ type cbReq struct {
 	invokeSeq uint64
 	outcome   string // "handler", "fallback" or "" (not decided yet)
 	decSeq    uint64 // seq of the critical section that decided the request
+	relSeq    uint64 // seq at which that critical section ended
 	enterSeq  uint64
 	exitSeq   uint64
 	status    int
@@ -53,7 +54,8 @@ type cbConfig struct {
 	checkPeriod  time.Duration
 	fine         bool
 	sideEffects  bool
-	fallbackKind int // 0 plain 503, 1 cbreaker.ResponseFallback, 2 cbreaker.RedirectFallback
+	slowLogger   bool // the caller's logger is slow: every log call is a point where the scheduler may switch tasks
+	fallbackKind int  // 0 plain 503, 1 cbreaker.ResponseFallback, 2 cbreaker.RedirectFallback
 }
 
 type countingEffect struct{ n int }
@@ -90,6 +92,11 @@ func newWorld(r *simkit.Run, cfg cbConfig) *cbWorld {
 		q := req.Context().Value(ctxKey{}).(*cbReq)
 		q.outcome = "handler"
 		q.decSeq = q.task.LastAcq
+		q.relSeq = q.task.LastRel
+		if q.decSeq <= q.invokeSeq {
+			q.decSeq = w.sim.Seq // no lock taken since the request arrived: the decision is where we are now
+			q.relSeq = w.sim.Seq
+		}
 		q.enterSeq = w.sim.Seq
 		w.inHandler++
 		if w.inHandler > w.maxInHand {
@@ -125,16 +132,26 @@ func newWorld(r *simkit.Run, cfg cbConfig) *cbWorld {
 		q := req.Context().Value(ctxKey{}).(*cbReq)
 		q.outcome = "fallback"
 		q.decSeq = q.task.LastAcq
+		q.relSeq = q.task.LastRel
+		if q.decSeq <= q.invokeSeq {
+			q.decSeq = w.sim.Seq
+			q.relSeq = w.sim.Seq
+		}
 		if realFallback != nil {
 			realFallback.ServeHTTP(rw, req)
 			return
 		}
 		rw.WriteHeader(http.StatusServiceUnavailable)
 	})
+	var logOpt []cbreaker.Option
+	if cfg.slowLogger {
+		logOpt = append(logOpt, cbreaker.Logger(yieldLogger{w.sim}))
+	}
 	opts := []cbreaker.Option{cbreaker.FallbackDuration(cfg.fallback), cbreaker.RecoveryDuration(cfg.recovery), cbreaker.CheckPeriod(cfg.checkPeriod), cbreaker.Fallback(fallback)}
 	if cfg.sideEffects {
 		opts = append(opts, cbreaker.OnTripped(w.onTripped), cbreaker.OnStandby(w.onStandby))
 	}
+	opts = append(opts, logOpt...)
 	cb, err := cbreaker.New(handler, cfg.expr, opts...)
 	if err != nil {
 		w.sim.Shutdown()
@@ -208,7 +225,9 @@ func (w *cbWorld) complete(q *cbReq, status int) {
 }
 
 func (w *cbWorld) advance(d time.Duration) {
-	if d <= 0 {
+	// time stands still while somebody is inside a critical section of the breaker (a slow logger may park a task
+	// there): the statement's instants - "the breaker trips", "a request arrives" - are then well defined
+	if d <= 0 || w.sim.LocksHeld() > 0 {
 		return
 	}
 	clock.Advance(d)
@@ -277,10 +296,11 @@ func (w *cbWorld) drawAdvance(rt *rapid.T) time.Duration {
 // events in the order of their critical sections.
 
 type cbEvent struct {
-	seq  uint64
-	t    time.Duration
-	kind string // "trip" (observed) or "decision"
-	req  *cbReq
+	cmpSeq uint64 // where the critical section of this event ended: the observed state there is compared with the model
+	seq    uint64
+	t      time.Duration
+	kind   string // "trip" (observed) or "decision"
+	req    *cbReq
 }
 
 type violation struct {
@@ -313,12 +333,16 @@ func (w *cbWorld) replayModel() modelResult {
 	var evs []cbEvent
 	for _, q := range w.reqs {
 		if q.outcome != "" {
-			evs = append(evs, cbEvent{seq: q.decSeq, t: w.stepTime[q.decSeq], kind: "decision", req: q})
+			rs := q.relSeq
+			if rs < q.decSeq {
+				rs = q.decSeq
+			}
+			evs = append(evs, cbEvent{seq: q.decSeq, cmpSeq: rs, t: w.stepTime[q.decSeq], kind: "decision", req: q})
 		}
 	}
 	for seq := 1; seq < len(w.obs); seq++ {
 		if w.obs[seq] == stTripped && w.obs[seq-1] != stTripped {
-			evs = append(evs, cbEvent{seq: uint64(seq), t: w.stepTime[seq], kind: "trip"})
+			evs = append(evs, cbEvent{seq: uint64(seq), cmpSeq: uint64(seq), t: w.stepTime[seq], kind: "trip"})
 		}
 		if w.obs[seq] != w.obs[seq-1] {
 			from, to := w.obs[seq-1], w.obs[seq]
@@ -371,7 +395,7 @@ func (w *cbWorld) replayModel() modelResult {
 					add("standby-refused", "request %d decided at t=%v (seq %d) while the breaker was in standby was answered by the fallback", q.id, e.t, e.seq)
 				}
 			case stTripped:
-				if e.t == until && int(e.seq) < len(w.obs) && w.obs[e.seq] == stTripped {
+				if e.t == until && int(e.cmpSeq) < len(w.obs) && w.obs[e.cmpSeq] == stTripped {
 					// exactly at the end of the fallback period: the statement leaves the boundary open
 					res.edgeBoundary++
 					break
@@ -419,8 +443,8 @@ func (w *cbWorld) replayModel() modelResult {
 					}
 					N++
 					// adopt whichever reading the implementation took
-					if int(e.seq) < len(w.obs) && (w.obs[e.seq] == stStandby || w.obs[e.seq] == stRecovering) {
-						state = w.obs[e.seq]
+					if int(e.cmpSeq) < len(w.obs) && (w.obs[e.cmpSeq] == stStandby || w.obs[e.cmpSeq] == stRecovering) {
+						state = w.obs[e.cmpSeq]
 					}
 					if state == stStandby && !passed {
 						add("recovery-exit", "request %d decided exactly at the end of the recovery period: breaker went to standby but refused it", q.id)
@@ -445,11 +469,11 @@ func (w *cbWorld) replayModel() modelResult {
 			}
 		}
 	compare:
-		if int(e.seq) < len(w.obs) && w.obs[e.seq] != state {
+		if int(e.cmpSeq) < len(w.obs) && w.obs[e.cmpSeq] != state {
 			// the observed machine and the model disagree after this critical section
 			{
-				add("state-mismatch", "after seq %d (t=%v, %s) the breaker reports %s, the reference model is %s", e.seq, e.t, e.kind, w.obs[e.seq], state)
-				state = w.obs[e.seq]
+				add("state-mismatch", "after seq %d (t=%v, %s) the breaker reports %s, the reference model is %s", e.cmpSeq, e.t, e.kind, w.obs[e.cmpSeq], state)
+				state = w.obs[e.cmpSeq]
 				if state == stRecovering {
 					R, P, N = e.t, 0, 0
 				}
@@ -477,3 +501,11 @@ func minu(a, b uint64) uint64 {
 	}
 	return b
 }
+
+// yieldLogger is a utils.Logger whose calls take time: each one is a yield point.
+type yieldLogger struct{ sim *simrt.Sim }
+
+func (l yieldLogger) Debug(string, ...interface{}) { l.sim.Yield() }
+func (l yieldLogger) Info(string, ...interface{})  { l.sim.Yield() }
+func (l yieldLogger) Warn(string, ...interface{})  { l.sim.Yield() }
+func (l yieldLogger) Error(string, ...interface{}) { l.sim.Yield() }
